@@ -680,6 +680,164 @@ def real_text(cfg, spec, exp):
         return str(cfg.model.node_to_ref(host_tid, exp["hrow"], exp["hcol"], node))
 
 
+
+# --------------------------------------------------------------------------- document level: one stored reference, many hosts
+
+def gen_ref_doc(rng, variant):
+    """a directed naming scenario whose tables carry formulas consisting of ONE same-table reference (a cell or a
+    rectangular range whose corners mix `$` and relative parts, optionally inside SUM()), each filled right / down so that
+    several host cells share one stored formula (harness/formuladocs.py)."""
+    import formuladocs as F
+    desc = scenario_desc(rng, variant)
+    flat = [td for _s, tds in desc for td in tds]
+    cells = []
+    for fi, td in enumerate(flat):
+        used = set()
+        body_r, body_c = range(td["hr"], td["nr"]), range(td["hc"], td["nc"])
+        if len(body_r) < 2 or len(body_c) < 2:
+            continue
+        for _ in range(rng.randrange(1, 4)):
+            t = F.gen_range(rng, td["nr"], td["nc"]) if rng.random() < 0.6 else F.gen_ref(rng, td["nr"], td["nc"], span=2)
+            if all(r[3] and r[4] for r in F.refs_of(t)):
+                continue
+            wrap = rng.random() < 0.5
+            if rng.random() < 0.5:
+                r0 = rng.choice(body_r)
+                cand = [(r0, c) for c in body_c]
+            else:
+                c0 = rng.choice(body_c)
+                cand = [(r, c0) for r in body_r]
+            hosts = [h for h in cand if h not in used and F.in_table(t, h, td["nr"], td["nc"])]
+            if len(hosts) < 2:
+                continue
+            used |= set(hosts)
+            for h in hosts:
+                txt = F.show(t, h)
+                cells.append([fi, list(h), f"SUM({txt})" if wrap else txt])
+    return {"desc": desc, "cells": cells}
+
+
+def check_ref_doc(spec, rng):
+    """every host read through Cell.formula on the open document and, from the saved file, isolated / forward / reverse /
+    shuffled: the printed reference must name exactly the cells the stored node denotes AT THAT HOST (independent reading of
+    the stored node, `judge` on the printed text) whatever was read before."""
+    import os
+    import formuladocs as F
+    from numbers_parser import Document
+    desc = spec["desc"]
+    res = {"hosts": 0, "shared_keys": 0, "texts": 0, "writer_refused": 0, "unsupported": 0, "problems": []}
+    doc, tables = build_from_desc(desc)
+    for fi, (r, c), text in spec["cells"]:
+        try:
+            with warnings.catch_warnings():
+                warnings.simplefilter("ignore")
+                tables[fi][1].cell(r, c).formula = text
+        except Exception:  # noqa: BLE001   the formula writer is not under test
+            res["writer_refused"] += 1
+
+    def all_tables(d):
+        return [t for s in d.sheets for t in s.tables]
+
+    def hosts_of(d):
+        return [(fi, cell.row, cell.col) for fi, t in enumerate(all_tables(d)) for row in t.rows() for cell in row if cell.is_formula]
+
+    def rd(d, h):
+        try:
+            with warnings.catch_warnings():
+                warnings.simplefilter("ignore")
+                return all_tables(d)[h[0]].cell(h[1], h[2]).formula
+        except Exception as e:  # noqa: BLE001
+            return "!raised " + exc_name(e)
+    got = {"open-document": {h: [rd(doc, h)] for h in hosts_of(doc)}}
+    with F.TempDir() as tmp:
+        path = os.path.join(tmp, "refs.numbers")
+        doc.save(path)
+        d0 = Document(path)
+        hosts = hosts_of(d0)
+        stored = {}
+        for fi, t in enumerate(all_tables(d0)):
+            asts = d0._model.formula_ast(t._table_id)
+            for row in t.rows():
+                for cell in row:
+                    if cell.is_formula and cell._formula_id in asts:
+                        stored[(fi, cell.row, cell.col)] = (cell._formula_id, list(asts[cell._formula_id]))
+        shuffled = hosts * 2
+        rng.shuffle(shuffled)
+        for name, seq in (("forward", hosts), ("reverse", hosts[::-1]), ("shuffled-with-repeats", shuffled)):
+            d = Document(path)
+            per = {}
+            for h in seq:
+                per.setdefault(h, []).append(rd(d, h))
+            got[name] = per
+        iso = {}
+        for h in (hosts if len(hosts) <= 10 else rng.sample(hosts, 10)):
+            iso[h] = [rd(Document(path), h)]
+        got["isolated"] = iso
+    keys = {}
+    for h, (k, _n) in stored.items():
+        keys.setdefault((h[0], k), []).append(h)
+    res["hosts"] = len(hosts)
+    res["shared_keys"] = sum(1 for v in keys.values() if len(v) > 1)
+    for h in hosts:
+        if h not in stored:
+            continue
+        nodes = stored[h][1]
+        names = [F._type_name(n) for n in nodes]
+        refnodes = [n for n, nm in zip(nodes, names) if nm in ("CELL_REFERENCE_NODE", "COLON_TRACT_NODE")]
+        if len(refnodes) != 1 or any(nm not in ("CELL_REFERENCE_NODE", "COLON_TRACT_NODE", "FUNCTION_NODE") for nm in names):
+            res["unsupported"] += 1
+            continue
+        try:
+            exp = F.decode_ref_exp(refnodes[0], (h[1], h[2]))
+        except F.Unsupported:
+            res["unsupported"] += 1
+            continue
+        if min(exp.get(k, 0) for k in ("r0", "r1", "c0", "c1")) < 0:
+            res["unsupported"] += 1
+            continue
+        exp.update(host=h[0], target=h[0], hrow=h[1], hcol=h[2])
+        seen = {}
+        for order, per in got.items():
+            for text in per.get(h, []):
+                res["texts"] += 1
+                seen.setdefault(text, order)
+                inp = {"ref_doc": spec, "host": list(h), "order": order, "exp": exp}
+                if text is None or text.startswith("!raised"):
+                    res["problems"].append(("reference-str-raises:" + str(text).split(" ")[-1],
+                                            f"Cell.formula of host {h} read in order {order}: {text}", inp))
+                    continue
+                ref = text[text.index("(") + 1:-1] if (len(names) > 1 and "(" in text and text.endswith(")")) else text
+                v = judge(desc, exp, ref)
+                if v:
+                    res["problems"].append((v[0], f"host table #{h[0]} cell ({h[1]},{h[2]}) shares stored formula "
+                                            f"{stored[h][0]} with {len(keys[(h[0], stored[h][0])]) - 1} other cells; read in "
+                                            f"order {order!r}: " + v[1], inp))
+        if len(seen) > 1:
+            res["problems"].append(("reference-text-depends-on-read-history",
+                                    f"host {h}: " + "; ".join(f"{o}: {t!r}" for t, o in seen.items()),
+                                    {"ref_doc": spec, "host": list(h), "order": "all", "exp": exp}))
+    return res
+
+
+def doc_level_phase(ctx):
+    rng = ctx.rng
+    ndocs = 2 if ctx.quick else 16
+    tot = {"hosts": 0, "shared_keys": 0, "texts": 0, "writer_refused": 0, "unsupported": 0}
+    for k in range(ndocs):
+        spec = gen_ref_doc(rng, k)
+        res = check_ref_doc(spec, rng)
+        for key in tot:
+            tot[key] += res[key]
+        for sig, what, inp in res["problems"]:
+            report(ctx, sig, what, inp)
+        ctx.mark(("ref-doc", k, len(spec["cells"])))
+    ctx.count("documents whose cells share stored single-reference formulas (fill right / down through the public formula "
+              "setter; cells and rectangular ranges with mixed $ / relative corners, bare or inside SUM()), every host read "
+              "through Cell.formula on the open document and from the saved file isolated / forward / reverse / shuffled: "
+              "printed reference vs independent reading of the stored node at that host", tot["texts"])
+    ctx.extra["document_level"] = dict(tot, documents=ndocs)
+
+
 def run(ctx: Ctx):
     rng = ctx.rng
     nconf = 24 if ctx.quick else 300
@@ -769,10 +927,19 @@ def run(ctx: Ctx):
     ctx.correspond("colon tracts with every subset of lists present x every sticky-bit combination", req, out,
                    exhaustive=True)
 
+    # --- document level: stored references shared by several host cells, read in different orders ---------------
+    doc_level_phase(ctx)
+
 
 def replay(data):
     """rebuild the stored configuration with the real API and print the reference again."""
     i = data["input"]
+    if "ref_doc" in i:
+        import random
+        r = check_ref_doc(i["ref_doc"], random.Random(0))
+        out = {k: v for k, v in r.items() if k != "problems"}
+        out["problems"] = [[sig, what] for sig, what, inp in r["problems"] if inp["host"] == i.get("host")][:10]
+        return out
     desc = i["doc"]
 
     class C:
